@@ -187,3 +187,11 @@ def run(ctx):
     ctx.assumptions += ['xor with no key column returns x whole (named deviation XorNoKey)',
                         'key cells of the result are compared with the key equality of the statement (1 may come back as 1.0), other cells exactly',
                         'termination of the real calls is observed with a 3 s CPU-time watchdog per call (correct evaluation takes < 5 ms); after 25 timeouts the remaining calls are skipped']
+
+
+def replay(ctx, body):
+    c = body['case']
+    o = observe(c['x'], c['y'], c['lk'], c['rk'], c['op'], c['mode'], c['spelling'], c['how'])
+    bad = ctx.validate('Trace_Join', [o])
+    print('replay:', 'REJECTED %s' % bad if bad else 'accepted', str(o['out'])[:300])
+    return 1 if bad else 0
